@@ -7,13 +7,15 @@ x widths / max_synthesis_size / error_threshold); the `*_post*` theorems are `la
 obligations over those trees (kernel evaluation of the abstract interpreter, `Proofs/PipelineChk*`).
 `C02_Pipe_sound` (all concrete state types, all executions) says what the abstract result means.
 
-Full-strength statement (NOT provable for the code as it is — see the `_witness` theorems, each
-replayed on the real `compile()` by harness/pipeline.py):
+Full-strength statement (NOT provable for the code as it is — see the two `_witness` theorems,
+each replayed on the real `compile()` by harness/pipeline.py):
 
     theorem C02_post : ∀ w ∈ workflows, executable w.final = true
 
-What is proved instead: `C02_post_partial` (circuit and unitary workflows outside the three
-witnessed defect classes) and `C02_structural` (every workflow, every model class).
+What is proved instead: `C02_post_partial` (workflows of all four input kinds outside the two
+remaining witnessed defect classes), `C02_post_fixed_classes` (the classes that the /repo fixes
+5e098c4 and ded687c repaired are inside that scope and executable) and `C02_structural` (every
+workflow, every model class).
 -/
 import BqVerif.Proofs.Pipeline
 import BqVerif.Proofs.PipelineChecks
@@ -61,8 +63,10 @@ example (c : Cfg) (h : Hyps) (s : AState) :
       (.seq (.leaf .noop {}) .skip) s s :=
   .seq (.leaf (fun _ ha => ha)) .skip
 
-/-- Every regenerated circuit / unitary workflow outside the witnessed defect classes ends in an
-abstract state that is executable on the model: no foreign gate of any arity, no CircuitGate left,
+/-- Every regenerated workflow — circuit, unitary, state, state system — outside the two
+remaining witnessed defect classes (a >= 3-qudit native gate on a sparse graph; unitary / state /
+state-system synthesis for a machine wider than the target) ends in an abstract state that is
+executable on the model: no foreign gate of any arity, no CircuitGate left,
 every multi-qudit gate on coupled qudits, width = the model's width, the target model set and its
 connectivity restored.  (Under the default hypotheses `Hyps`: synthesis leaves succeed; gate
 deletion for models without single-qudit gates removes them all.) -/
@@ -78,25 +82,35 @@ connectivity restored. -/
 theorem C02_structural : ∀ w ∈ workflows, structural w.final = true :=
   fun w hw => allCheck_structural (workflows_ok w hw)
 
-/-- The scope is not empty and covers every level and the sparse / wide / non-default models. -/
-example : (workflows.filter (·.c02Scope)).length ≥ 400 := by decide +kernel
+/-- The scope is not empty, covers every level and the sparse / wide / non-default models, and
+holds several hundred state / state-system workflows. -/
+example : (workflows.filter (·.c02Scope)).length ≥ 750 := by decide +kernel
+example : (workflows.filter (fun w => w.c02Scope && w.isStateLike)).length ≥ 340 := by
+  decide +kernel
 
-/-- Defect class 1 (state preparation / state maps): the synthesis leaf's layer generator writes
-general single-qudit rotations and no single-qudit retarget stage follows: the abstract result of
-the regenerated tree has a foreign single-qudit gate. -/
-theorem C02_stateprep_witness :
-    executable witStatePrep.final = false ∧ witStatePrep.final.fSQ = true
-      ∧ executable witSystem.final = false ∧ witSystem.final.fSQ = true := by decide +kernel
+/-- The classes repaired in /repo (regression obligations: each was a `_witness` of a defect
+before): state preparation and state maps end without a foreign single-qudit gate since the
+single-qudit retarget stage follows the synthesis (fix 5e098c4; before it the layer generator's
+RX/RY/RZ stayed in the output); a one-qudit circuit at level 4 on a wider machine is placed on
+the machine (fix ded687c: `ApplyPlacement` in the else-branch of the SeqPAM stage). -/
+theorem C02_post_fixed_classes :
+    witStatePrep.c02Scope = true ∧ executable witStatePrep.final = true
+      ∧ witSystem.c02Scope = true ∧ executable witSystem.final = true
+      ∧ witStateL2.c02Scope = true ∧ executable witStateL2.final = true
+      ∧ witL4W1Wide.c02Scope = true ∧ executable witL4W1Wide.final = true := by decide +kernel
 
-/-- Defect class 2: a >= 3-qudit native gate on a sparse graph — the retargeting body run AFTER
+/-- Defect class 1: a >= 3-qudit native gate on a sparse graph — the retargeting body run AFTER
 mapping synthesises with hidden connectivity. -/
 theorem C02_manyqudit_sparse_witness :
     witManySparse.final.uncoupled = true ∧ witManySparse.manyOnSparse = true := by decide +kernel
 
-/-- Defect class 3: no ApplyPlacement on the path (unitary synthesis; one-qudit circuit at
-level 4) — the output keeps the input's width on a wider machine. -/
+/-- Defect class 2: no ApplyPlacement on the path of unitary / state / state-system synthesis —
+the output keeps the target's width on a wider machine (everything else is in order: the
+narrow variant of the postcondition holds). -/
 theorem C02_unplaced_witness :
-    witUnitaryWide.final.narrow = true ∧ witL4W1Wide.final.narrow = true := by decide +kernel
+    witUnitaryWide.final.narrow = true ∧ executableNarrow witUnitaryWide.final = true
+      ∧ witStateWide.final.narrow = true ∧ executableNarrow witStateWide.final = true := by
+  decide +kernel
 
 /-- The hypothesis `delOK` is really used: without it the no-single-qudit-gate model class is not
 executable (the workflow only "attempts to remove single-qudit gates"). -/
@@ -104,25 +118,77 @@ theorem C02_nosq_needs_delOK :
     executable (witNoSQ.final {}) = true
       ∧ executable (witNoSQ.final { delOK := false }) = false := by decide +kernel
 
-/-- `MachineModel.is_compatible` (transcribed clause by clause, short-circuit order and the
-indexing failures included) equals the specification: not wider than the machine, every gate
-native, every coupled pair of the circuit coupled in the machine through the placement (either
-orientation), radixes equal — whenever the placement can be indexed. -/
+/-- `MachineModel.is_compatible` (transcribed clause by clause as it is after the /repo fix
+26675ef: short-circuit order, the sequential consumption of the two generator expressions and the
+IndexErrors of `placement[q]` / `self.radixes[placement[i]]` included) equals the three-clause
+specification, placeholders aside: not wider than the machine; the gate of every operation that is
+not a barrier / measurement / reset placeholder is native; EVERY pair of qudits of every such
+operation is coupled in the machine through the placement (either orientation); radixes equal —
+whenever the placement can be indexed. -/
 theorem C02_is_compatible_spec (m : MachView) (cv : CircView) (placement : Option (List Nat))
     (hp : placementOK m cv placement = true) :
     isCompatible m cv placement = some (compatSpec m cv placement) :=
   isCompatible_spec m cv placement hp
 
-/-- Non-vacuity: a 2-qubit circuit on a 3-qubit line, default placement; one coupled pair given in
-the orientation the machine does not list. -/
-example : placementOK ⟨[2, 2, 2], [1, 2], [(0, 1), (1, 2)]⟩ ⟨[2, 2], [1], [(1, 0)]⟩ none = true
-    ∧ isCompatible ⟨[2, 2, 2], [1, 2], [(0, 1), (1, 2)]⟩ ⟨[2, 2], [1], [(1, 0)]⟩ none = some true
-    ∧ isCompatible ⟨[2, 2, 2], [1, 2], [(0, 1), (1, 2)]⟩ ⟨[2, 2, 2], [1], [(0, 2)]⟩ none
-        = some false := by decide
+/-- Non-vacuity: a 3-qubit circuit on a 3-qubit line, default placement: a native gate on (1,0)
+(the orientation the machine does not list), a barrier over all three qudits (spanning the
+uncoupled pair (0,2)) and a measurement are ignored; the same three-qudit location under a
+native three-qudit gate is rejected because (0,2) is not an edge. -/
+example :
+    placementOK ⟨[2, 2, 2], [1, 2], [(0, 1), (1, 2)]⟩
+        ⟨[2, 2, 2], [⟨1, false, [1, 0]⟩, ⟨7, true, [0, 1, 2]⟩, ⟨8, true, [2]⟩]⟩ none = true
+    ∧ isCompatible ⟨[2, 2, 2], [1, 2], [(0, 1), (1, 2)]⟩
+        ⟨[2, 2, 2], [⟨1, false, [1, 0]⟩, ⟨7, true, [0, 1, 2]⟩, ⟨8, true, [2]⟩]⟩ none = some true
+    ∧ isCompatible ⟨[2, 2, 2], [1, 2], [(0, 1), (1, 2)]⟩
+        ⟨[2, 2, 2], [⟨2, false, [0, 1, 2]⟩]⟩ none = some false := by decide
+
+/-- The same statement in words of the property: `is_compatible` answers True exactly when the
+circuit is not wider than the machine, every non-placeholder gate is native, the qudits of every
+non-placeholder operation are PAIRWISE coupled through the placement, and every qudit has the
+radix of the machine qudit it is placed on. -/
+theorem C02_is_compatible_iff (m : MachView) (cv : CircView) (placement : Option (List Nat))
+    (hp : placementOK m cv placement = true) :
+    isCompatible m cv placement = some true ↔
+      cv.radixes.length ≤ m.radixes.length
+      ∧ (∀ o ∈ cv.ops, o.ph = false → m.gates.contains o.gate = true)
+      ∧ (∀ o ∈ cv.ops, o.ph = false → o.loc.Pairwise (fun a b =>
+          coupled m ((placement.getD (List.range cv.radixes.length)).getD a 0,
+            (placement.getD (List.range cv.radixes.length)).getD b 0) = true))
+      ∧ (∀ x ∈ cv.radixes.zipIdx,
+          x.1 = m.radixes.getD ((placement.getD (List.range cv.radixes.length)).getD x.2 0) 0) := by
+  rw [C02_is_compatible_spec m cv placement hp]
+  simp only [Option.some.injEq, compatSpec, Bool.and_eq_true, decide_eq_true_eq,
+    List.all_eq_true, Bool.or_eq_true, beq_iff_eq]
+  constructor
+  · rintro ⟨⟨⟨h1, h2⟩, h3⟩, h4⟩
+    refine ⟨h1, fun o ho hph => ?_, fun o ho hph => ?_, h4⟩
+    · rcases h2 o ho with h | h
+      · rw [hph] at h; cases h
+      · exact h
+    · rcases h3 o ho with h | h
+      · rw [hph] at h; cases h
+      · exact (pairsOf_all _ o.loc).mp (List.all_eq_true.mpr h)
+  · rintro ⟨h1, h2, h3, h4⟩
+    refine ⟨⟨⟨h1, fun o ho => ?_⟩, fun o ho => ?_⟩, h4⟩
+    · cases hph : o.ph
+      · exact Or.inr (h2 o ho hph)
+      · exact Or.inl rfl
+    · cases hph : o.ph
+      · exact Or.inr (List.all_eq_true.mp ((pairsOf_all _ o.loc).mpr (h3 o ho hph)))
+      · exact Or.inl rfl
+
+/-- Placeholders aside, literally: deleting every barrier / measurement / reset operation from
+the circuit changes neither the verdict of `is_compatible` nor whether it raises (no hypothesis on
+the placement).  Before the /repo fix 26675ef every output holding a placeholder was rejected. -/
+theorem C02_is_compatible_ignores_placeholders (m : MachView) (cv : CircView)
+    (placement : Option (List Nat)) :
+    isCompatible m cv placement
+      = isCompatible m { cv with ops := cv.ops.filter (fun o => !o.ph) } placement :=
+  isCompatible_strip m cv placement
 
 /-- A circuit narrower than the machine is accepted: `is_compatible` does not check "has the
 model's width". -/
 theorem C02_is_compatible_accepts_narrow :
-    isCompatible ⟨[2, 2, 2], [1], [(0, 1)]⟩ ⟨[2], [1], []⟩ none = some true := by decide
+    isCompatible ⟨[2, 2, 2], [1], [(0, 1)]⟩ ⟨[2], [⟨1, false, [0]⟩]⟩ none = some true := by decide
 
 end BqVerif.Props.C02
